@@ -313,6 +313,174 @@ theorem cdUG_laws : (cdUG N).Laws where
     simp only at a1 a2 b1 b2
     rw [N.wal_inj _ _ h1, h2, N.tx_inj _ _ h3, h4, a1, a2, b1, b2]
 
+-- ------------------------------------------------------------------ `c`, `mc`: credit values
+
+/-- the flag byte of a credit value: the writer's bits (change, staking, binding: `valueUnspentCredit`) and the spent
+    bit `spendCredit` sets; positions from the regenerated tables -/
+def credFlag (c : CreditValB) : Nat :=
+  match wValueUnspentCredit.spans, wSpendCredit.spans with
+  | [_, f, _, _], [_, g, _, _, _, _] =>
+    (flagByte (bitsAt wValueUnspentCredit f.off) [c.change, c.cls = .staking, c.cls = .binding]) |||
+      (if c.spent then flagByte (bitsAt wSpendCredit g.off) [true] else 0)
+  | _, _ => 0
+
+/-- the 45-byte credit value (buckets `c` — unspent — and `mc`) -/
+def enc45 (c : CreditValB) : Bytes :=
+  encode wValueUnspentCredit [.n c.amount, .n (credFlag c), .n c.maturity, .b c.scriptHash]
+
+/-- the credit value of bucket `c`: 45 bytes while unspent, 121 bytes (spender's debit key appended by `spendCredit`)
+    once spent -/
+def encCredit (x : CreditValB × Option CredKeyB) : Bytes :=
+  match x.2 with
+  | none => enc45 x.1
+  | some dk => enc45 x.1 ++ keyDebit dk
+
+def decCredit (v : Bytes) : Option (CreditValB × Option CredKeyB) :=
+  match readCreditValue v with
+  | none => none
+  | some c =>
+    if c.spent then
+      match readCreditSpender v with
+      | some dk => (readRawCreditKey dk).map (fun k => (c, some k))
+      | none => none
+    else if v.length = wValueUnspentCredit.size then some (c, none) else none
+
+def _root_.MW.Model.TxmgrCodec.CreditValB.WF (c : CreditValB) : Prop :=
+  c.amount ≤ maxAmount ∧ c.maturity < 256 ^ 4 ∧ c.scriptHash.length = 32
+
+def wfCredit (x : CreditValB × Option CredKeyB) : Prop :=
+  x.1.WF ∧ x.1.spent = x.2.isSome ∧ ∀ dk, x.2 = some dk → dk.WFd = true
+
+def cdC : Codec CredKeyB (CreditValB × Option CredKeyB) CredKey Credit where
+  encK := keyCredit
+  decK := readRawCreditKey
+  encV := encCredit
+  decV := decCredit
+  wfK k := k.WF = true
+  wfV := wfCredit
+  nmK := nmCK N
+  nmV := nmCredit N
+
+/-- unmined credits: outpoint ↦ 45-byte value (the spent flag of a rolled-back credit is kept, no spender) -/
+def cdMC : Codec OutPointB CreditValB (TxId × Nat) Credit where
+  encK := canonicalOutPoint
+  decK := readUnminedCreditKey
+  encV := enc45
+  decV v := if v.length = wValueUnspentCredit.size then readCreditValue v else none
+  wfK o := o.WF = true
+  wfV c := c.WF
+  nmK := nmOP N
+  nmV c := nmCredit N (c, none)
+
+-- ------------------------------------------------------------------ `b`: block records
+
+def _root_.MW.Model.TxmgrCodec.BlockRecB.WF (r : BlockRecB) : Prop :=
+  r.hash.length = 32 ∧ r.time < 256 ^ 8 ∧ r.txs ≠ [] ∧ r.txs.length < 256 ^ 4 ∧ ∀ t ∈ r.txs, t.length = 32
+
+def cdB : Codec Nat BlockRecB Nat (BlkId × List TxId) where
+  encK := keyBlockRecord
+  decK := readBlockRecordKey
+  encV r := (blockRecordValue r.hash r.time r.txs).getD []
+  decV := readRawBlockRecordValue
+  wfK h := h < 256 ^ 8
+  wfV r := r.WF
+  nmK h := h
+  nmV r := (N.blk r.hash, r.txs.map N.tx)
+
+-- ------------------------------------------------------------------ `ws`: wallet status
+
+def decWalletStatus (v : Bytes) : Option (Nat × Nat) :=
+  match decodeBy wWalletStatus v with
+  | some [.n s, .n f] => some (s, f)
+  | _ => none
+
+def nmStatus (x : Nat × Nat) : WStatus :=
+  ⟨if x.1 = 2 ^ 64 - 1 then none else some x.1, x.2 &&& walletFlagsRemove ≠ 0⟩
+
+def cdWS : Codec Bytes (Nat × Nat) Wid WStatus where
+  encK w := w
+  decK w := if w.length = 42 then some w else none
+  encV x := valueWalletStatus ⟨[], x.1, x.2⟩
+  decV := decWalletStatus
+  wfK w := w.length = 42
+  wfV x := x.1 < 256 ^ 8 ∧ x.2 < 256
+  nmK := N.wal
+  nmV := nmStatus
+
+theorem decWalletStatus_enc (x : Nat × Nat) (h1 : x.1 < 256 ^ 8) (h2 : x.2 < 256) :
+    decWalletStatus (valueWalletStatus ⟨[], x.1, x.2⟩) = some x := by
+  have hf : Fits wWalletStatus.spans [.n x.1, .n x.2] = true := by
+    simp [Fits, FitsV, wWalletStatus, Kind.isBytes, h1, h2]
+  have e := decodeBy_encode wWalletStatus wWalletStatus [.n x.1, .n x.2] (by decide) hf (by decide)
+  simp only [decWalletStatus, valueWalletStatus, e]; rfl
+
+theorem cdWS_laws : (cdWS N).Laws where
+  decK_encK w h := by dsimp only [cdWS] at h ⊢; simp [h]
+  decV_encV x h := by dsimp only [cdWS] at h ⊢; exact decWalletStatus_enc x h.1 h.2
+  nmK_inj a b _ _ h := by dsimp only [cdWS] at h; exact N.wal_inj a b h
+
+-- ------------------------------------------------------------------ `m`: pending transactions
+
+/-- `deser`: mass-core's `MsgTx.SetBytes(…, wire.DB)` followed by the reading of a transaction as the ledger model's
+    `Tx` (a parameter: the wire format is mass-core's) -/
+def cdM (deser : Bytes → Tx) : Codec Bytes (Int × Bytes) TxId Tx where
+  encK h := h
+  decK h := if h.length = 32 then some h else none
+  encV x := valueUnmined x.2 x.1
+  decV := readRawUnmined
+  wfK h := h.length = 32
+  wfV x := -(2 ^ 63 : Int) ≤ x.1 ∧ x.1 < 2 ^ 63
+  nmK := N.tx
+  nmV x := deser x.2
+
+theorem cdM_laws (deser : Bytes → Tx) : (cdM N deser).Laws where
+  decK_encK w h := by dsimp only [cdM] at h ⊢; simp [h]
+  decV_encV x h := by dsimp only [cdM] at h ⊢; exact readRawUnmined_valueUnmined x.2 x.1 h.1 h.2
+  nmK_inj a b _ _ h := by dsimp only [cdM] at h; exact N.tx_inj a b h
+
+-- ------------------------------------------------------------------ `mi`: pending inputs (outpoint ↦ spender hashes)
+
+def decHashes (v : Bytes) : Option (List Bytes) :=
+  if v.length % blockRecordStride = 0 then some (chunks blockRecordStride (v.length / blockRecordStride) v) else none
+
+def cdMI : Codec OutPointB (List Bytes) (TxId × Nat) (List TxId) where
+  encK := canonicalOutPoint
+  decK := readUnminedCreditKey
+  encV hs := hs.flatten
+  decV := decHashes
+  wfK o := o.WF = true
+  wfV hs := ∀ h ∈ hs, h.length = 32
+  nmK := nmOP N
+  nmV hs := hs.map N.tx
+
+theorem chunks_flatten (hs : List Bytes) (h : ∀ x ∈ hs, x.length = 32) :
+    chunks 32 hs.length hs.flatten = hs ∧ hs.flatten.length = 32 * hs.length := by
+  induction hs with
+  | nil => exact ⟨rfl, rfl⟩
+  | cons a r ih =>
+    have ha := h a List.mem_cons_self
+    have ih := ih (fun x hx => h x (List.mem_cons_of_mem _ hx))
+    constructor
+    · simp only [List.length_cons, chunks, List.flatten_cons]
+      rw [List.take_left' ha, List.drop_left' ha, ih.1]
+    · simp only [List.flatten_cons, List.length_append, List.length_cons, ih.2, ha]; omega
+
+theorem decHashes_enc (hs : List Bytes) (h : ∀ x ∈ hs, x.length = 32) : decHashes hs.flatten = some hs := by
+  obtain ⟨h1, h2⟩ := chunks_flatten hs h
+  have hs32 : blockRecordStride = 32 := rfl
+  simp only [decHashes, hs32, h2, Nat.mul_mod_right, if_true]
+  rw [Nat.mul_div_cancel_left _ (by decide : 0 < 32), h1]
+
+theorem nmOP_inj {o o' : OutPointB} (h : nmOP N o = nmOP N o') : o = o' := by
+  cases o; cases o'
+  simp only [nmOP, Prod.mk.injEq] at h
+  rw [N.tx_inj _ _ h.1, h.2]
+
+theorem cdMI_laws : (cdMI N).Laws where
+  decK_encK o h := by dsimp only [cdMI] at h ⊢; exact readUnminedCreditKey_canonicalOutPoint o h
+  decV_encV hs h := by dsimp only [cdMI] at h ⊢; exact decHashes_enc hs h
+  nmK_inj _ _ _ _ h := by dsimp only [cdMI] at h; exact nmOP_inj N h
+
 -- ------------------------------------------------------------------ `sync`: height ↦ block hash (the key "syncedto" aside)
 
 /-- []byte(syncedToName) -/
